@@ -531,3 +531,67 @@ Section Clamp.
     rewrite E1, E2. reflexivity.
   Qed.
 End Clamp.
+
+(* --- the unit an offset falls into is unique ------------------------------------------------------------ *)
+Lemma located_no_overlap cps off pre cur post l cur' post' :
+  Forall cp_ok (cur ++ post) ->
+  located cps off pre cur post -> located cps off (pre ++ l) cur' post' ->
+  cur ++ post = l ++ cur' ++ post' -> l = [].
+Proof.
+  intros Hok (_ & H) (_ & H') E.
+  destruct l as [|x l']; [reflexivity|]. exfalso.
+  assert (Hb' : len (bytes pre) + len (bytes (x :: l')) <= off).
+  { rewrite <- len_app, <- bytes_app.
+    destruct cur' as [|d1 [|d2 [|d3 cur'']]]; try contradiction.
+    - destruct H' as (_ & ->). lia.
+    - destruct H' as (Hr & _). lia.
+    - destruct H' as (_ & _ & Hr). lia. }
+  rewrite bytes_cons, len_app in Hb'. pose proof (len_bytes_nonneg l') as Hnl.
+  destruct cur as [|c1 [|c2 [|c3 cur'']]]; try contradiction.
+  - destruct H as (-> & _). discriminate.
+  - cbn [app] in E. injection E as -> E. destruct H as (Hr & _). lia.
+  - cbn [app] in E. injection E as -> E. destruct H as (H13 & H10 & Hr).
+    inversion Hok as [|? ? Hc1 Hok']; subst. inversion Hok' as [|? ? Hc2 _]; subst.
+    destruct x as [b1 r1]. destruct c2 as [b2 r2]. cbn [fst snd] in *.
+    pose proof (cp_ok_len b1 r1 Hc1). pose proof (cp_ok_len b2 r2 Hc2).
+    destruct l' as [|y l''].
+    + cbn [app] in E.
+      assert (Hcr : ends_cr (runes (pre ++ [(b1, r1)])) = true).
+      { rewrite runes_app. cbn [runes map snd]. rewrite ends_cr_snoc. subst r1. reflexivity. }
+      destruct cur' as [|d1 [|d2 [|d3 cur'']]]; try contradiction.
+      * destruct H' as (-> & _). discriminate.
+      * cbn [app] in E. injection E as <- _. destruct H' as (_ & _ & Hn). apply Hn. split; [exact H10|exact Hcr].
+      * cbn [app] in E. injection E as <- _. destruct H' as (Hd13 & _). cbn [snd] in Hd13. lia.
+    + cbn [app] in E. injection E as <- _. rewrite bytes_cons, len_app in Hb'. cbn [fst] in Hb'.
+      pose proof (len_bytes_nonneg l''). lia.
+Qed.
+
+Lemma located_unique cps off pre cur post pre' cur' post' :
+  Forall cp_ok cps -> located cps off pre cur post -> located cps off pre' cur' post' ->
+  pre = pre' /\ cur = cur' /\ post = post'.
+Proof.
+  intros Hok L1 L2. pose proof L1 as (E1 & H1). pose proof L2 as (E2 & H2).
+  assert (Hr1 : Forall cp_ok (cur ++ post)) by (rewrite E1 in Hok; exact (Forall_app_r _ _ _ Hok)).
+  assert (Hr2 : Forall cp_ok (cur' ++ post')) by (rewrite E2 in Hok; exact (Forall_app_r _ _ _ Hok)).
+  assert (Hpre : pre = pre' /\ cur ++ post = cur' ++ post').
+  { assert (E : pre ++ cur ++ post = pre' ++ cur' ++ post') by congruence.
+    apply app_eq_app in E. destruct E as (l & [(Ea & Eb)|(Ea & Eb)]).
+    - subst pre. assert (l = []) by (eapply (located_no_overlap cps off pre' cur' post' l cur post); eauto).
+      subst l. rewrite app_nil_r. cbn [app] in Eb. split; [reflexivity|congruence].
+    - subst pre'. assert (l = []) by (eapply (located_no_overlap cps off pre cur post l cur' post'); eauto).
+      subst l. rewrite app_nil_r. cbn [app] in Eb. split; [reflexivity|congruence]. }
+  destruct Hpre as (<- & E). split; [reflexivity|].
+  destruct cur as [|c1 [|c2 [|c3 cur0]]]; try contradiction;
+  destruct cur' as [|d1 [|d2 [|d3 cur0']]]; try contradiction; cbn [app] in E.
+  - destruct H1 as (-> & _). destruct H2 as (-> & _). split; reflexivity.
+  - destruct H1 as (-> & _). discriminate.
+  - destruct H1 as (-> & _). discriminate.
+  - destruct H2 as (-> & _). discriminate.
+  - injection E as -> ->. split; reflexivity.
+  - injection E as -> ->. exfalso. destruct H1 as (_ & Hn & _). destruct H2 as (H13 & H10 & _).
+    apply Hn. split; [exact H13|]. cbn [runes map starts_lf]. apply Z.eqb_eq. exact H10.
+  - destruct H2 as (-> & _). discriminate.
+  - injection E as -> <-. exfalso. destruct H2 as (_ & Hn & _). destruct H1 as (H13 & H10 & _).
+    apply Hn. split; [exact H13|]. cbn [runes map starts_lf]. apply Z.eqb_eq. exact H10.
+  - injection E as -> -> ->. split; reflexivity.
+Qed.
